@@ -332,7 +332,7 @@ impl CJudge<'_> {
                     let sig = if a.rule == "validator-panic" {
                         a.detail.split_whitespace().collect::<Vec<_>>().join(" ")
                     } else if min_steps.len() > 1 {
-                        format!("{}|via-history|{}", a.detail, if last.faults.is_empty() { "honest-step-after-rejected-tampering" } else { "tampered-step" })
+                        format!("{}|via-history:{}|{}", a.detail, crate::fault_kinds(min_steps.iter().flat_map(|s| s.faults.iter().map(|f| f.kind.as_str()))), if last.faults.is_empty() { "honest-step-after-rejected-tampering" } else { "tampered-step" })
                     } else if last.faults.is_empty() {
                         let zi = b.truth().responsible(&last.qname, last.qtype);
                         let z = &b.truth().zones[zi];
